@@ -286,8 +286,15 @@ Definition impl_txsafe (u l : bytes) (idx : N) : string :=
   | _, _ => "ERR"
   end.
 
-Definition impl_txrun (u l : bytes) (idx : N) : string :=
-  match from_bytes u, from_bytes l with
+(* script argument of the transaction ops: byte descriptor or T<tree> *)
+Definition script_arg (a : string) : option (outcome (list bit)) :=
+  match a with
+  | String "T" t => match parse_tree t with Some bits => Some (Ok bits) | None => None end
+  | _ => match expand a with Some bs => Some (from_bytes bs) | None => None end
+  end.
+
+Definition impl_txrun (u l : outcome (list bit)) (idx : N) : string :=
+  match u, l with
   | Ok ub, Ok lb =>
       if negb (idx =? 0)%N then "ERR"
       else match from_bytes (to_bytes ub ++ to_bytes lb) with
@@ -341,7 +348,7 @@ Definition run (op : string) (args : list string) : string :=
   | "interp.step_vs_run", [a] => with_bytes a do_svr
   | "interp.step_vs_runbits", [a] => with_tree a do_svr
   | "interp.txrun", [u; l; n] =>
-      match expand u, expand l, N_of_dec64 n with
+      match script_arg u, script_arg l, N_of_dec64 n with
       | Some ub, Some lb, Some idx => out3 (impl_txrun ub lb idx) (spec_step_vs_run +++ "~ERR") "-"
       | _, _, _ => "BADARG"
       end
@@ -368,10 +375,10 @@ Definition run (op : string) (args : list string) : string :=
       | None => "BADARG"
       end
   | "interp.histtx", [u; l; k] =>
-      match expand u, expand l, N_of_dec k with
+      match script_arg u, script_arg l, N_of_dec k with
       | Some ub, Some lb, Some k' =>
           if (k' <? 100000)%N then
-            out3 (match from_bytes ub, from_bytes lb with
+            out3 (match ub, lb with
                   | Ok ubits, Ok lbits =>
                       match from_bytes (to_bytes ubits ++ to_bytes lbits) with
                       | Ok bits => hist unit gpre gver (from_script_bits unit bits (Some tt)) k'
